@@ -666,12 +666,14 @@ def run_boot_cv(ctx, routine, tap):
         if e['ev'] != 'return':
             continue
         if e['fn'] in bnames:
-            cur = {'boot': e, 'cv': [], 'nc': []}
+            cur = {'boot': e, 'cv': [], 'nc': [], 'sets': []}
             chunks.append(cur)
         elif cur is not None and e['fn'] == 'crossval':
             cur['cv'].append(e)
         elif cur is not None and e['fn'] in ('cv_noise_ceiling', 'boot_noise_ceiling'):
             cur['nc'].append(e)
+        elif cur is not None and e['fn'] in ('sets_k_fold', 'sets_random'):
+            cur['sets'].append(e)
     if len(chunks) != N:
         ctx.fail(routine, dict(sig, what='number_of_resamples'), f'{len(chunks)} resamples for N={N}', wit())
         return
@@ -738,6 +740,24 @@ def run_boot_cv(ctx, routine, tap):
                     ctx.fail(routine, dict(sig, what='ceiling_value'), f'noise ceiling of resample {i}, run {c} is not '
                              f'the one computed on that resample', wit(i=i, run=c))
                     return
+                # ... and it is the ceiling of THIS run's folds: the call that produced it was handed the generator's
+                # ceiling sets (the training RDMs) as predictors and the generator's test sets as targets -- compared by
+                # content (which RDMs each fold's object holds), fold by fold; with a split over RDMs the two differ
+                if len(ch['sets']) == len(ch['cv']) == per_sample and ne['fn'] == 'cv_noise_ceiling':
+                    g_train, g_test, g_ceil = ch['sets'][c]['out']
+                    na, nk = ne['call']['args'], ne['call']['kwargs']
+                    a_ceil = nk.get('ceil_set', na[1] if len(na) > 1 else None)
+                    a_test = nk.get('test_set', na[2] if len(na) > 2 else None)
+                    if g_ceil is not None and a_ceil is not None and a_test is not None:
+                        def uids(fold_list):
+                            return [sorted(int(v) for v in f[0].rdm_descriptors['uid']) for f in fold_list]
+                        ctx.count('ceiling_calls_checked_for_fold_roles')
+                        if uids(a_ceil) != uids(g_ceil) or uids(a_test) != uids(g_test):
+                            ctx.fail(routine, dict(sig, what='ceiling_of_other_folds'), f'resample {i}, run {c}: the noise '
+                                     f'ceiling was computed with predictor folds holding RDMs {uids(a_ceil)} and target folds '
+                                     f'{uids(a_test)}; the generator\'s ceiling sets hold {uids(g_ceil)}, its test sets '
+                                     f'{uids(g_test)}', wit(i=i, run=c))
+                            return
         elif ch['nc']:
             o = np.asarray(ch['nc'][0]['out'], dtype=float)
             if not (np.array_equal(nc_arr[0, i], np.broadcast_to(o[0], nc_arr[0, i].shape), equal_nan=True) and
